@@ -18,9 +18,11 @@ import time
 from lib import flows, tlc
 from lib.units import SeqUnit, Inconclusive, run_h, validate_file
 
-LTS_KINDS = ["lts", "lts2"]   # List.lts.cfg: all calls, 3 handles; List.lts2.cfg: element-creating calls, 4 handles
+LTS_KINDS = ["lts", "lts2", "lts3"]   # List.lts3.cfg: iterations whose callback removes an element (not on the thread-safe flavour,
+                                       # which holds its lock while it iterates)   # List.lts.cfg: all calls, 3 handles; List.lts2.cfg: element-creating calls, 4 handles
 REFERENCE = "List.go"
 SUTS = [REFERENCE, "List.lockfree", "List.threadsafe"]
+KIND_SUTS = {"lts3": [REFERENCE, "List.lockfree"]}
 
 GEN = """---- MODULE ListGen ----
 EXTENDS List, Json
@@ -59,7 +61,7 @@ class ListUnit(SeqUnit):
             return
         walks, depth = self.thorough_walks if ctx.thorough else self.walks
         prefix = os.path.join(ctx.out, "List." + kind)
-        box["walk." + kind] = run_h(ctx, ["listlts", edges, "-suts", ",".join(SUTS), "-seed", str(ctx.seed), "-walks", str(walks),
+        box["walk." + kind] = run_h(ctx, ["listlts", edges, "-suts", ",".join(KIND_SUTS.get(kind, SUTS)), "-seed", str(ctx.seed), "-walks", str(walks),
                                   "-depth", str(depth), "-out", prefix], timeout=1500)
 
     def flow_record(self, ctx, box):
@@ -83,7 +85,8 @@ class ListUnit(SeqUnit):
         ths = [threading.Thread(target=guard, args=(self.flow_mc, ctx, sd, box)),
                threading.Thread(target=guard, args=(self.flow_lts, ctx, sd, box, "lts")),
                threading.Thread(target=guard, args=(self.flow_record, ctx, box)),
-               threading.Thread(target=guard, args=(self.flow_lts, ctx, sd, box, "lts2"))]
+               threading.Thread(target=guard, args=(self.flow_lts, ctx, sd, box, "lts2")),
+               threading.Thread(target=guard, args=(self.flow_lts, ctx, sd, box, "lts3"))]
         for t in ths:
             t.start()
         # traces can be validated while TLC/walker are still busy (validation runs TLC with one worker)
@@ -129,7 +132,7 @@ class ListUnit(SeqUnit):
         if p.returncode != 0:
             return ["walker died on List: %s" % (p.stderr or p.stdout)[-2000:]]
         out = []
-        for sut in SUTS:
+        for sut in KIND_SUTS.get(kind, SUTS):
             rep = json.load(open(os.path.join(ctx.out, "List.%s.%s.walk.json" % (kind, sut))))
             self.info["lts"][kind + ":" + sut] = {"states": rep["states"], "edges": rep["edges"], "covered": rep["edges_covered"],
                                      "groups": rep["stimulus_groups"], "groups_covered": rep["stimulus_groups_covered"],
